@@ -13,6 +13,11 @@ import IrVerif.Lemmas.ScopeExt
 import IrVerif.Lemmas.ScopeExtInv
 import IrVerif.Lemmas.ScopeExtLocal
 import IrVerif.Lemmas.ScopeFunc9Inert
+import IrVerif.Lemmas.ScopeFunc9Idem
+import IrVerif.Lemmas.ScopeExtTop
+import IrVerif.Lemmas.ScopeExtSerOk
+import IrVerif.Lemmas.ScopeExtModelTop
+import IrVerif.Lemmas.ScopeExtDevCert
 namespace IrVerif.Scope
 
 /-- **C17_total**: `deserialize` is a total function on every `GraphP`, with no well-formedness
@@ -473,6 +478,25 @@ theorem C17_ir9_entries_inert (m w1 : MWorld) (Q : ModelP) (h : serializeM9 true
   obtain ⟨q, hq, he⟩ := ir9_entries_inert m w1 Q h hkeys
   exact ⟨q, hq, he, by simp only [deserialize, he]⟩
 
+/-- **C17_idempotent_ir9** (deepening round 5; closes the fix-point of the repaired IR version < 10 format, both
+    halves): for EVERY model proto `P` (duplicate function identifiers, overloads, domains / names containing `::`
+    or `/`, main-graph values or value_info entries named like experimental entries, duplicate input names,
+    empty-named outputs included): if `deserializeM9 P` returns an IR `m`, serializing it with the repaired code
+    (`serializeM9 true`) succeeds and gives a proto `Q` that deserializes and serializes to itself.  No hypothesis
+    beyond "deserialization succeeded".  With `C17_ir9_not_idempotent` this is the exact status of the format: the
+    fix-point is false before the repair of D320 and a theorem after it.
+    Proof (`Lemmas/ScopeFunc9*.lean`): `m` is a `ReloadableM` model `m0` whose function-value infos were replaced by
+    the post-pass by an info that is a function of the NAME among a function's inputs and node outputs
+    (`ir9_core`); clearing the infos of the truthy-named function values keeps the certificate (`clear_reloadable`:
+    `replF` / `replG` read infos only where stated), that model round-trips (`reloadableM_roundtrip`), the
+    experimental entries are inert for the main graph (`ir9_entries_inert`), every entry parses back to the name it
+    was written under (`parseExp_eq`, `canParseBack`), and the post-pass of the reloaded model applies by name
+    exactly the entries that were written by name, so the second serialization writes the same entries. -/
+theorem C17_idempotent_ir9 (P : ModelP) (m : MWorld) (hd : deserializeM9 P = .ok m) :
+    ∃ (m1 : MWorld) (Q : ModelP) (D m2 : MWorld),
+      serializeM9 true m = .ok (m1, Q) ∧ deserializeM9 Q = .ok D ∧ serializeM9 true D = .ok (m2, Q) :=
+  idempotent_ir9 P m hd
+
 /-! ### the extended model (`Model/ScopeExt.lean`): merged value metadata, quantization annotations, sharding
 values of node device configurations -/
 
@@ -564,6 +588,61 @@ theorem C17_ext_payload_fixpoint (p : GraphE) (w : WorldE) (h : deserializeE p =
   · obtain ⟨h1, h2⟩ := (hw v).2 ps hq
     exact quant_payload_fix ps h1 h2
   · exact devs_payload_fix w.st.vals st'.vals scopes hn _ ps hs
+
+/-- **C17_idempotent_ext** (deepening round 5; the FLOW half, hence the full fix-point of the extended model of
+    graphs): for EVERY extended proto `p` (value_info / input / output entries with metadata_props, quantization
+    annotations with dangling / repeated / empty tensor names, node device configurations; dangling, duplicate,
+    shadowed names, placeholders, unproduced outputs as in `C17_idempotent`) and every IR version `ver`: if
+    `deserializeE p` returns `w`, then serializing `w` raises - and then only in a device configuration (a
+    configuration without id, a sharding spec without value, at IR version >= 11; never for lack of a name:
+    `reloadableE_ser`) -, or it yields a proto `q` that deserializes
+    (`deserializeE q = .ok D`) and serializes to itself (`serializeE ver D = .ok (_, q)`): value_info entries
+    with their metadata, the quantization_annotation list and the device configurations of every node included.
+    No hypothesis beyond "deserialization succeeded".
+    Proof: every deserialized model satisfies the certificate `ReloadableE` (`deserializeE_reloadableE`:
+    `Reloadable` of the core, the representation invariant `ExtWF`, and `extG`: equally named values of one graph
+    carry the same annotation, unbound graph outputs and empty-named node outputs carry none); `rtE_graph`
+    (`Lemmas/ScopeExtRT.lean`) redoes the lock-step induction `rt2_graph` for `deserGraphE` on the proto written
+    by `serGraphE` with the extension state: every entry that reaches the image of a value was written for that
+    value (inputs / outputs positionally, value_info and annotations by the uniqueness of the bindings of a
+    name), so the images of the emitted values carry `normM` / `normQ` of the source payload
+    (`C17_ext_payload_fixpoint`: merging = overwriting); `img2E_serGraph` (`Lemmas/ScopeExtIdem.lean`) is the
+    congruence of `serGraphE` under the resulting isomorphism, the `seen` lists of the annotation loops mapped
+    through the injective renaming; the device configurations are read back in name-preserving scopes
+    (`deserializeE_devSpec`) and written again as they were (`devs_payload_fix`).
+    Models with FUNCTIONS: `C17_idempotent_ext_model`. -/
+theorem C17_idempotent_ext (ver : Option Int) (p : GraphE) (w : WorldE) (hd : deserializeE p = .ok w) :
+    (∃ e, serializeE ver w = .error (.dev e)) ∨
+    ∃ (w1 : WorldE) (q : GraphE) (D : WorldE) (w2 : WorldE),
+      serializeE ver w = .ok (w1, q) ∧ deserializeE q = .ok D ∧ serializeE ver D = .ok (w2, q) := by
+  rcases reloadableE_ser ver w (deserializeE_reloadableE p w hd) with ⟨q, ws, hs⟩ | ⟨e, hs⟩
+  · obtain ⟨D, ws', hD, hq'⟩ := reloadableE_fixpoint ver w (deserializeE_reloadableE p w hd) q ws hs
+    exact .inr ⟨⟨w.st.writes ws, w.ext, w.root⟩, q, D, ⟨D.st.writes ws', D.ext, D.root⟩,
+      by simp only [serializeE, hs], hD, by simp only [serializeE, hq']⟩
+  · exact .inl ⟨e, by simp only [serializeE, hs]⟩
+
+/-- **C17_idempotent_ext_model** (deepening round 5): `C17_idempotent_ext` for MODELS WITH FUNCTIONS (IR version
+    >= 10 format, `deserializeME` / `serializeME`): main graph, nested graphs and function bodies with the metadata
+    of their value_info entries and the device configurations of their nodes; several inputs of one name, duplicate
+    function identifiers, placeholders inside functions included.  Whenever `deserializeME p = .ok w`, serializing `w`
+    raises in a device configuration or yields a model proto `Q` that deserializes and serializes to itself.  No
+    hypothesis beyond "deserialization succeeded".  Proof: `deserializeME_reloadableME` (certificate `ReloadableME`),
+    `rtE_func` / `rtE_funcs` (the lock-step induction for function bodies, on top of `rtE_nodes`),
+    `img2E_serFunction`, `deserializeME_devSpec`. -/
+theorem C17_idempotent_ext_model (ver : Option Int) (p : ModelE) (w : MWorldE) (hd : deserializeME p = .ok w) :
+    (∃ e, serializeME ver w = .error (.dev e)) ∨
+    ∃ (w1 : MWorldE) (Q : ModelE) (D w2 : MWorldE),
+      serializeME ver w = .ok (w1, Q) ∧ deserializeME Q = .ok D ∧ serializeME ver D = .ok (w2, Q) :=
+  idempotent_extM ver p w hd
+
+/-- **C17_ext_sharding_resolved**: in every IR the extended deserializer returns, every sharding value is the value
+    its name resolves to in the scopes visible at its node (the certificate `DevCertG`, along the tables of the
+    resolution certificate): the hypothesis under which the round trip preserves sharding values by identity
+    (`C03_roundtrip_ext_devices`) holds for every deserialized model.  Strengthens `C17_ext_sharding_named`
+    (allocated and named) to "is the innermost binding of its name at that node". -/
+theorem C17_ext_sharding_resolved (p : GraphE) (w : WorldE) (h : deserializeE p = .ok w) :
+    DevCertG w.st.vals w.ext [] w.root :=
+  deserializeE_devCert p w h
 
 /-- **C17_idempotent_partial**: if deserialization returns an IR `w` that is `Serializable` (the names
     of the proto were SSA per scope chain, every reference resolved to a definition of an enclosing
@@ -738,6 +817,22 @@ example : (match deserializeM9 exampleIR9b with
     | .ok m => (match serializeM9 true m with
         | .ok (_, Q) => Q.graph.vinfo.length == 2
         | .error _ => false) && m.root.inits.all (fun kv => (m.st.vals kv.2).name == some kv.1)
+    | .error _ => false) = true := by decide +kernel
+
+/-- the hypothesis of `C17_idempotent_ext` is satisfiable and both alternatives occur: at IR version 10 the
+    serialization of `exampleExt` succeeds (second alternative, with metadata, annotations and a placeholder), at IR
+    version 11 it raises (the sharding spec without a value) -/
+example : (match deserializeE exampleExt with
+    | .ok w => isOkB (serializeE (some 10) w) && !isOkB (serializeE (some 11) w)
+    | .error _ => false) = true := by decide +kernel
+
+/-- the hypothesis of `C17_idempotent_ir9` is satisfiable with an experimental entry written (`exampleIR9b`) -/
+example : isOkB (deserializeM9 exampleIR9b) = true := by decide +kernel
+
+/-- the hypothesis of `C17_idempotent_ext_model` is satisfiable (a function whose node carries a device configuration,
+    metadata on a function value) and the second alternative occurs at IR version 10 -/
+example : (match deserializeME exampleExtModel with
+    | .ok w => isOkB (serializeME (some 10) w)
     | .error _ => false) = true := by decide +kernel
 
 end IrVerif.Scope
